@@ -190,6 +190,23 @@ func randomConfig(r *rand.Rand, old string) proj.Config {
 	case 2:
 		c.Alias, c.PkgName, c.PkgPath = "gcov", "goat", "tools/goat"
 	}
+	// the configured path need not be clean: the directory and the import path are
+	if r.Intn(4) == 0 {
+		segs := strings.Split(c.PkgPath, "/")
+		switch r.Intn(4) {
+		case 0:
+			c.PkgPathRaw = "./" + c.PkgPath
+		case 1:
+			c.PkgPathRaw = c.PkgPath + "/"
+		case 2:
+			c.PkgPathRaw = strings.Join(segs, "//")
+		case 3:
+			c.PkgPathRaw = segs[0] + "/./" + strings.Join(segs[1:], "/")
+		}
+		if c.PkgPathRaw == c.PkgPath || filepath.Clean(c.PkgPathRaw) != c.PkgPath {
+			c.PkgPathRaw = "./" + c.PkgPath
+		}
+	}
 	return c
 }
 
@@ -239,6 +256,28 @@ func (c *e2eCtx) newScenario(i int, r *rand.Rand, o proj.Opts, mkcfg func(r *ran
 		c.count("store:packed")
 	}
 	s.cfg = mkcfg(r, s.oldRev)
+	// one configuration in six ignores a library that lies ON an import path (imported by some
+	// package, importing others): its files are not instrumented, the packages behind it still are
+	// and still belong to the import closure of the mains that reach them through it
+	if i%6 == 2 {
+		imported := map[int]bool{}
+		for _, pk := range s.p.Pkgs {
+			for _, j := range pk.Imports {
+				imported[j] = true
+			}
+		}
+		for j, pk := range s.p.Pkgs {
+			if !pk.IsMain && imported[j] && len(pk.Imports) > 0 && pk.Dir != "." {
+				ign := s.cfg.Ignores
+				if ign == nil {
+					ign = []string{".git", ".gitignore", ".DS_Store", ".idea", ".vscode", ".venv", "vendor", "testdata", "node_modules"}
+				}
+				s.cfg.Ignores = append(append([]string{}, ign...), pk.Dir)
+				c.count("config:ignores-intermediate-library")
+				break
+			}
+		}
+	}
 	// one configuration in four is written by `goat init` itself from flags (the way users get it)
 	if i%4 == 1 && proj.InitConfig(c.goat, s.dir, s.cfg) {
 		c.count("config:written-by-goat-init")
